@@ -21,6 +21,8 @@ type SpecEnv struct {
 	header   *ssa.BasicBlock
 	depth    int
 	specPkg  string
+	sumCtx   *sumCtx
+	sumDepth int
 }
 
 func (fr *Frame) newEnv() *SpecEnv {
@@ -450,7 +452,12 @@ func (e *SpecEnv) index(v *SVal, idx *SVal) *SVal {
 	case KSlice:
 		s := e.force(v)
 		et := elemType(s.T)
-		return lv(&Loc{Kind: LElem, Base: s.F[0].Term, Idx: sAdd(s.F[1].Term, idx.Term), Root: et, T: et})
+		arr, off := s.F[0].Term, s.F[1].Term
+		if c := e.sumCtx; c != nil && strings.Contains(idx.Term, c.ph) && !strings.Contains(arr, c.ph) && !strings.Contains(off, c.ph) {
+			// lambda-lift the slice out of the sum body (see sum.go)
+			arr, off = c.param(arr), c.param(off)
+		}
+		return lv(&Loc{Kind: LElem, Base: arr, Idx: sAdd(off, idx.Term), Root: et, T: et})
 	case KArray:
 		a := v.T.Underlying().(*types.Array)
 		if v.LV {
@@ -910,7 +917,7 @@ func (e *SpecEnv) quant(kind string, args []*Node) *SVal {
 }
 
 // sum(k, lo, hi, term): uninterpreted prefix-sum function with ground unfolding at hi.
-func (e *SpecEnv) sum(args []*Node) *SVal {
+func (e *SpecEnv) sumOld(args []*Node) *SVal {
 	x := e.fr.x
 	if len(args) != 4 || args[0].Op != "id" {
 		sfail("sum(k, lo, hi, term)")
